@@ -3,6 +3,7 @@ package main
 import (
 	"go/token"
 	"go/types"
+	"strings"
 
 	"golang.org/x/tools/go/ssa"
 )
@@ -117,3 +118,25 @@ func (vc *VC) inlineCall(f *ssa.Function, key string, args []SVal, pos token.Pos
 }
 
 var _ types.Type
+
+// nameQuantLet: a boolean `let` whose value contains a quantifier is given a name (a declared
+// constant with a defining equation) instead of being pasted into every clause that uses it:
+// `ite(big, 6, 3)` with big = (exists k ...) otherwise repeats the quantifier inside arithmetic
+// terms of caller and callee clauses, and relating the copies cost the solvers 15-60 s.
+func (vc *VC) nameQuantLet(name string, v SVal) SVal {
+	if v.K == KInt && len(v.S) > 80 {
+		// a long integer term (a chain of loads): named too, so that quantified lets built from it
+		// stay small and the caller's and the callee's copies differ in one constant only
+		n := vc.declare(vc.sym("let_"+name), SInt)
+		vc.fact("true", eq(n, v.S))
+		v.S = n
+		return v
+	}
+	if v.K != KBool || !(strings.Contains(v.S, "(exists ") || strings.Contains(v.S, "(forall ")) {
+		return v
+	}
+	n := vc.declare(vc.sym("let_"+name), SBool)
+	vc.fact("true", eq(n, v.S))
+	v.S = n
+	return v
+}
